@@ -91,6 +91,7 @@ class World:
         self.listeners = {}
         self.connections = []
         self.stderr = Sink()
+        self.stdout = Sink()
         self._pid = 1000
         self._port = 40000
         self._em = {}
@@ -100,6 +101,12 @@ class World:
         self.chunk_policy = self.knobs.get("chunk", "greedy")
         self.proc_names = {}
         self.hist = []  # harness histories (plain data only)
+        self.cleanup = []  # callables run at the end of run(), before hooks are restored
+        # process-global caches of the tree under test that would make the first run differ
+        try:
+            self.gb._Serializer._dispatch.clear()
+        except AttributeError:
+            pass
 
     # ---- allocation ---------------------------------------------------
     def alloc_pid(self):
@@ -148,14 +155,19 @@ class World:
             m = self._sockmods[proc] = SocketModule(self, proc)
         return m
 
-    def chunk(self, m):
-        """How many of m available bytes a low-level read returns (index 0 = all)."""
+    def chunk(self, m, n=None):
+        """How many of m available bytes a low-level read returns (index 0 = all).
+        `n` is the number of bytes the caller asked for."""
         if m <= 1:
             return m
         pol = self.chunk_policy
         if pol == "greedy":
             return m
         if pol == "one":
+            # 1-byte reads for headers and small payloads; bulk transfers (bootstrap source,
+            # shipped modules) would cost >100k sync points per run otherwise
+            if n is not None and n > 192:
+                return m
             return 1
         # random: mostly greedy-ish with occasional tiny reads
         c = self.chooser
@@ -214,10 +226,11 @@ class World:
     def run(self, wall_timeout=120.0):
         multi = self.mods["multi"]
         rsync = self.mods["rsync"]
-        saved = (multi.Lock, rsync.Queue, sys.stderr, sys.unraisablehook)
+        saved = (multi.Lock, rsync.Queue, sys.stderr, sys.unraisablehook, sys.stdout)
         multi.Lock = lambda: SimLock(self.sched)
         rsync.Queue = lambda: SimQueue(self.sched)
         sys.stderr = self.stderr
+        sys.stdout = self.stdout
         sys.unraisablehook = lambda *a: None
         _procs.WORLD = self
         leaked = 0
@@ -238,8 +251,14 @@ class World:
                 multi.Lock, rsync.Queue = saved[0], saved[1]
                 self.groups = []
                 self._em.clear()
+                for fn in self.cleanup:
+                    try:
+                        fn()
+                    except Exception:  # noqa: BLE001
+                        pass
                 gc.collect()
                 sys.stderr = saved[2]
+                sys.stdout = saved[4]
                 sys.unraisablehook = saved[3]
         self.leaked = leaked
         return reason
